@@ -118,6 +118,37 @@ def run(prog, chk):
         from ..ktry import parent_map
         pm = parent_map(f.body)
         for n in SX.walk(f.body, into_lambdas=False):
+            if n['k'] == 'bin' and n.get('op') in ('.*', '->*') and _comp(f, n) is not None:
+                # table-driven access `v.*field.member` (a pointer to one of the components): stands for every component
+                nuse += len(FIELDS)
+                par = pm.get(id(n))
+                while par is not None and par.get('k') == 'cast':
+                    par = pm.get(id(par))
+                uses = [(n, par)]
+                if par is not None and par.get('k') == 'var' and (par.get('const') or 'const' in (par.get('type') or '')):
+                    # `const int mine = current.*field.member;` — the local stands for the component wherever it is used
+                    uses = []
+                    for x in SX.walk(f.body, into_lambdas=False):
+                        if x['k'] == 'ref' and x.get('id') == par.get('id'):
+                            px = pm.get(id(x))
+                            while px is not None and px.get('k') == 'cast':
+                                px = pm.get(id(px))
+                            uses.append((x, px))
+                okp = bool(uses)
+                for x, px in uses:
+                    if not (px is not None and px.get('k') == 'bin' and px['op'] in ('==', '!=', '<', '>', '<=', '>=')):
+                        okp = False
+                        continue
+                    other = px['r'] if px['l'] is x else px['l']
+                    a, b = _comp(f, x), _comp(f, other)
+                    if not (a and b and a[1] == b[1] and a[0] != b[0]):
+                        okp = False
+                if okp:
+                    chk.ob('R20.1', f, n.get('ln', f.ln), True, 'version component %s compared with the same component of the other version' % SX.show(n),
+                           key='pairwise:%s' % f.short, nontrivial=False)
+                else:
+                    chk.vacuous.append('version component %s is used in a way the quotient argument does not cover; the comparison tables cannot be decided' % SX.show(n))
+                continue
             if n['k'] == 'member' and n['name'] in FIELDS and 'SemVer' in n.get('q', ''):
                 nuse += 1
                 par = pm.get(id(n))
@@ -249,7 +280,10 @@ def run(prog, chk):
     bad = []
     for c, l, vc, vl, o in states:
         table['CUR'], table['LAT'] = c, l
-        r, _ = run_fn(hasLatest, ['CUR', 'LAT'], {'parseSemVer': m_parse})
+        if all('SemVer' in (p_.get('type') or '') for p_ in hasLatest.params):
+            r, _ = run_fn(hasLatest, [Obj(c), Obj(l)], {'parseSemVer': m_parse})       # takes the parsed versions
+        else:
+            r, _ = run_fn(hasLatest, ['CUR', 'LAT'], {'parseSemVer': m_parse})
         want = vc and vl and lex(o) <= 0
         if bool(r) != bool(want):
             bad.append((vc, vl, o, r))
@@ -392,6 +426,44 @@ def run(prog, chk):
                 mism.append(n)
     extract = [c for c in g.calls(lambda e: e['k'] in ('call',) and SX.short(SX.callee(e)) == 'extractArchive')]
     ok = bool(mism) and bool(extract) and all(extract[0].id not in g.reachable([m]) for m in mism)
+    if not mism and extract:
+        # the comparison may live in a file-local verification helper (`if (!verifyArchiveChecksum(…)) return false;`): inside the
+        # helper every path from the mismatch ends in the same constant result, and in performSelfUpdate the branch taken on that
+        # result never reaches the extraction
+        ok = False
+        for h in um:
+            if h is selfupd or h.kind == 'lambda' or not h.body or (h.ret or '') != 'bool':
+                continue
+            gh = prog.cfg(h)
+            hm = []
+            for n in gh.nodes:
+                if n.kind == 'edge' and 'expected' in SX.show(n.e):
+                    cp = SX.cmp_parts(n.e)
+                    if cp and ((cp[0] == '!=' and n.pol) or (cp[0] == '==' and not n.pol)):
+                        hm.append(n)
+            sites = [c for c in g.calls(lambda e: e['k'] == 'call' and SX.callee(e) == h.name)]
+            if not hm or not sites:
+                continue
+            consts = set()
+            for m in hm:
+                r = gh.reachable([m])
+                for rn in gh.nodes:
+                    if rn.kind == 'return' and rn.id in r:
+                        v = SX.strip(rn.e.get('e'))
+                        consts.add(v['v'] if SX.is_node(v) and v.get('k') == 'bool' else None)
+                if gh.exit.id in r and not any(rn.kind == 'return' and rn.id in r for rn in gh.nodes):
+                    consts.add(None)
+            if len(consts) != 1 or None in consts:
+                continue
+            kres = bool(consts.pop())
+            ok = True
+            for c in sites:
+                es = [n for n in g.nodes if n.kind == 'edge' and n.e is c.e and n.pol == kres]
+                if not es or any(extract[0].id in g.reachable([e_]) for e_ in es):
+                    ok = False
+                # the extraction itself must come after the verification
+                if not g.must_precede([c], extract[0]):
+                    ok = False
     chk.ob('R20.4', selfupd, selfupd.ln, ok, 'a checksum mismatch must end the update before the archive is extracted', key='mismatch-aborts')
     # the name passed to parseChecksum is the asset that was downloaded
     pc = [c for c in g.calls(lambda e: e['k'] == 'call' and SX.callee(e) == checksum.name)]
@@ -400,6 +472,27 @@ def run(prog, chk):
         an = SX.show(SX.real_args(pc[0].e)[1])
         ok = any(an in SX.show(a) for a in SX.real_args(dl[0].e))
         chk.ob('R20.4', selfupd, pc[0].ln, ok, 'checksum is looked up for the same asset name that is downloaded (%s)' % an, key='same-asset')
+
+
+def _comp(f, e):
+    """(text of the version object, component key) when e denotes one component of a version: `v.major`, `v.*<pointer to a
+    component>`, or a const local initialised with one"""
+    e = SX.strip(e)
+    while SX.is_node(e) and e.get('k') == 'cast':
+        e = SX.strip(e['e'])
+    if not SX.is_node(e):
+        return None
+    if e['k'] == 'member' and e['name'] in FIELDS and 'SemVer' in e.get('q', ''):
+        return SX.show(e['base']), 'f:' + e['name']
+    if e['k'] == 'bin' and e.get('op') in ('.*', '->*') and 'SemVer::*' in ((SX.strip(e['r']) or {}).get('t') or '') and SX.strip(e['r']).get('t', '').startswith('int '):
+        return SX.show(e['l']), 'p:' + SX.show(e['r'])
+    if e['k'] == 'ref' and e.get('kind') == 'var':
+        for v in SX.walk(f.body, into_lambdas=False):
+            if v['k'] == 'var' and v.get('id') == e.get('id') and (v.get('const') or 'const' in (v.get('type') or '')) and SX.is_node(v.get('init')):
+                i = SX.strip(v['init'])
+                if SX.is_node(i) and i.get('k') != 'ref':
+                    return _comp(f, i)
+    return None
 
 
 def _is_disjunction_of_getenv(e):
